@@ -290,6 +290,15 @@ def gen_C17(rnd, n, tier):
         cfg = base_cfg(optimize=rnd.random() < 0.5); whole = "\n".join(srcs); gid = "rep%d" % q
         indep.append(Case(compile_line(cfg, whole), whole, cfg, {"indep": gid, "role": "whole"}))
         for k, sp in enumerate(srcs): indep.append(Case(compile_line(cfg, sp), sp, cfg, {"indep": gid, "role": k}))
+    # round 16 (fixed): a mapscripts statement that only REFERS to labels, among them label statements written inside a
+    # script of the same file - both orders; the file compiles to the concatenation of its statements compiled alone
+    msr = "mapscripts MyMap_MapScripts {\n  MAP_SCRIPT_ON_TRANSITION: MyMap_OnTransition\n  MAP_SCRIPT_ON_FRAME_TABLE [\n    VAR_TEMP_0, 0: MyMap_OnFrame\n    VAR_TEMP_0, 1: MyMap_Inner\n  ]\n}\n"
+    scr = "script MyMap_OnFrame {\n  lockall\n  setvar(VAR_TEMP_0, 1)\nMyMap_OnTransition:\n  setflag(FLAG_VISITED_MY_MAP)\n  if (flag(FLAG_X)) {\n  MyMap_Inner(global):\n    nop\n  }\n  end\n}\n"
+    for q, parts in enumerate([[msr, scr], [scr, msr], [scr, "movement MyMap_OnTransition_M { walk_up }\n", msr]]):
+        for o in (True, False):
+            cfg = base_cfg(optimize=o); whole = "\n".join(parts); gid = "msref%d%s" % (q, o)
+            indep.append(Case(compile_line(cfg, whole), whole, cfg, {"indep": gid, "role": "whole"}))
+            for k, sp in enumerate(parts): indep.append(Case(compile_line(cfg, sp), sp, cfg, {"indep": gid, "role": k}))
     fontsK = {"FA": {"maxLineLength": 208, "numLines": 2, "cursorOverlapWidth": 0, "widths": {"default": 6, " ": 3, "{KYOGRE}": 0, "{HERO}": 4}},
               "FB": {"maxLineLength": 208, "numLines": 2, "cursorOverlapWidth": 0, "widths": {"default": 6, " ": 3, "{KYOGRE}": 36, "{HERO}": 60}}}
     for i in range(max(6, n // 8)):
@@ -790,6 +799,13 @@ def gen_C20(rnd, n, tier):
                     src = "\n".join(lines) + "\n"; line = 1 if first else len(scr) + 1
                     cfg = base_cfg(optimize=(idx == 0), switches={"V": "A"})
                     out.append(Case(compile_line(cfg, src), src, cfg, {"kind": kindx + "_clash_named", "line": line, "wrap": None}))
+    # round 16 (appended, fixed): a constant defined as itself / through a cycle cannot be redefined either
+    for pre, line in ((["const FLAG_DOOR = FLAG_DOOR"], 2), (["const PA = PB", "const PB = PA"], 3), (["const K = 1", "const J = J", "const L = K"], 4)):
+        for second in ("= 0x21", "= K2 + 1", "= %s" % pre[-1].split()[1]):
+            nm = pre[-1].split()[1] if len(pre) < 3 else "J"
+            lines = pre + ["const %s %s" % (nm, second), "script S {", "  setflag(%s)" % nm, "}"]
+            src = "\n".join(lines) + "\n"; cfg = base_cfg(switches={"V": "A"})
+            out.append(Case(compile_line(cfg, src), src, cfg, {"kind": "const_redef_self", "line": line, "wrap": None}))
     return out
 
 PROBE = {}
